@@ -182,3 +182,10 @@ add('PATH',
     Rule('X-PATH', 'std::fs::File::options()', 'File::options()'),
     Rule('X-PATH', 'std::fs::File::create($p:e)', 'File::create($p)'),
     Rule('X-PATH', 'BufWriter<std::fs::File>', 'BufWriter'))
+
+# X-ITER: `'outer: for s in W.iter() { .. }` over a read window -> indexed while loop
+add('ITER',
+    Rule('X-ITER', "'outer: for $s:i in $w:i.iter() $body:b",
+         "{ let mut __k: usize = 0; 'outer: while __k < $w.len() { let $s = $w.get_ref(__k); __k += 1; $body } }"),
+    Rule('X-ITER', "for $s:i in $w:i.iter() $body:b",
+         "{ let mut __k: usize = 0; while __k < $w.len() { let $s = $w.get_ref(__k); __k += 1; $body } }"))
